@@ -46,12 +46,13 @@ def _decoder_functions(repo):
     """(owner class or None, name, fn) for every function of decoder.py."""
     mod = repo.module("decoder")
     out = []
+    from .inline import inlined
     for name, fn in mod.functions.items():
-        out.append((None, name, fn))
+        out.append((None, name, inlined(repo, None, fn, module="decoder")))
     for cname, cnode in mod.classes.items():
         for n in cnode.body:
             if isinstance(n, ast.FunctionDef):
-                out.append((cname, n.name, n))
+                out.append((cname, n.name, inlined(repo, cname, n, module="decoder")))
     return out
 
 
